@@ -15,7 +15,7 @@ either the whole group with its index or nothing); a failing step returns the er
 try_for_each; cancellation ends in an error exit. (3) ImportTask::new: skip is stored index + 1 when
 a progress entry exists, else 0, looked up under the same migration name that run writes.
 (4) update_genesis_progress writes GenesisMetadata under the given key with the given index, and is
-the only writer of that table besides the final cleanup.
+the only writer of that table besides the final cleanup. Exactly one storage transaction is opened per group.
 """
 NOT_DECIDED = """Idempotence of the handlers (not needed given atomic progress); what the group iterator yields after a restart."""
 
